@@ -110,6 +110,7 @@ var gen3Targets = []string{
 // Low.Gen.Ssa4): functions that create and call a closure (closure.go).
 var gen4Targets = []string{
 	"sigbits.ShardByPrefix",
+	"pbcmpl.verStr",
 }
 
 var targetList = append(append(append(append([]string{}, legacyTargets...), newTargets...), gen3Targets...), gen4Targets...)
